@@ -242,6 +242,7 @@ func harnesses(r *fw.Run) []fw.HarnessSpec {
 			malformed(c, e, doc)
 		}
 	}}})
+	hs = append(hs, envelopeHarness(r))
 	return hs
 }
 
